@@ -514,6 +514,27 @@ func FixedCorpus() []*Unit {
 		out = append(out, u)
 	}
 
+	// ---- names2: imports names and declares the SUFFIXED forms of the reserved
+	// names (descriptor_, get_, ...): what the generator turns the reserved names
+	// into must not leak from one file of a run into another
+	{
+		u, f := unit("names2", "fields and oneofs named like the renamed reserved names (get_, type_, ...), in a file co-generated with the one that has the reserved names")
+		f.P.Dependency = append(f.P.Dependency, "verif/names.proto")
+		m := f.Msg("Suffixed")
+		for i, n := range []string{"descriptor", "type", "new", "interface", "range", "has", "clear", "get", "set", "mutable",
+			"new_field", "which_oneof", "get_unknown", "set_unknown", "is_valid", "proto_methods"} {
+			m.F(n+"_", i+1, S(String))
+		}
+		m.F("methods", 40, M("verif.names.Methods"))
+		m2 := f.Msg("SuffixedOneof")
+		o := m2.Oneof("get_")
+		m2.O(o, "a", 1, S(Int32))
+		m2.O(o, "b", 2, M("verif.names.Methods"))
+		o2 := m2.Oneof("type_")
+		m2.O(o2, "c", 3, S(String))
+		out = append(out, u)
+	}
+
 	// ---- fdnames: names that collide in the generator's own fd_/md_ variables
 	{
 		u, f := unit("fdnames", "message A field B_c vs nested message A.B field c (fd_A_B_c)")
@@ -573,6 +594,56 @@ func FixedCorpus() []*Unit {
 	}
 
 	out = append(out, customOptsUnit())
+
+	// ---- oddnames: identifiers that are valid proto but unusual: lower-case and
+	// underscored type names, leading / trailing / doubled underscores and
+	// capitals in field names, lower-case enum values, custom json_name
+	{
+		u, f := unit("oddids", "lower-case and underscored message / enum names, odd field identifiers, custom json_name")
+		pkg := f.P.GetPackage()
+		f.Enum("mode", "mode_off", 0, "MODE_on", 1, "lower_case_value", 2)
+		lo := f.Msg("lower")
+		lo.F("_x", 1, S(Int32))
+		lo.F("y_", 2, S(String))
+		lo.F("a__b", 3, S(Bool))
+		lo.R("URL", 4, S(String))
+		lo.F("cD", 5, S(Bytes))
+		lo.Map("Cap_Map", 6, String, E(pkg+".mode"))
+		lo.F("m", 7, E(pkg+".mode"))
+		in := lo.Nested("inner")
+		in.F("v", 1, S(Sint32))
+		in.Enum("kind", "kind_zero", 0, "kind_one", 1)
+		in.F("k", 2, E(in.Full()+".kind"))
+		lo.F("child", 8, M(in.Full()))
+		lo.R("children", 9, M(in.Full()))
+		o := lo.Oneof("one_Of")
+		lo.O(o, "o_a", 10, M(in.Full()))
+		lo.O(o, "OB", 11, S(Uint64))
+		us := f.Msg("Under_Score")
+		us.F("lower", 1, M(lo.Full()))
+		us.Map("by_id", 2, Int64, M(lo.Full()))
+		fd := us.F("renamed", 3, S(String))
+		fd.JsonName = proto.String("customJSON")
+		fd = us.R("renamed_list", 4, S(Int32))
+		fd.JsonName = proto.String("RENAMED-list")
+		fd = us.Map("renamed_map", 5, String, S(Double))
+		fd.JsonName = proto.String("map with spaces")
+		fd = us.F("renamed_msg", 6, M(in.Full()))
+		fd.JsonName = proto.String("@type_like")
+		// lower-case names that begin with letters of the package name
+		for i, n := range []string{"version", "event", "item", "field_set", "oddids", "verif"} {
+			lm := f.Msg(n)
+			lm.F("n", 1, S(Int32))
+			rec := lm.Nested("record")
+			rec.F("r", 1, S(String))
+			lm.R("records", 2, M(rec.Full()))
+			us.F("use_"+n, 20+i, M(lm.Full()))
+		}
+		deep := us.Nested("deep_1").Nested("Deep_2").Nested("deep3")
+		deep.F("leaf", 1, S(Fixed32))
+		us.F("d", 7, M(deep.Full()))
+		out = append(out, u)
+	}
 
 	return out
 }
